@@ -13,7 +13,7 @@ import (
 )
 
 func init() {
-	register(&Rule{ID: "T-LEX", Props: []string{"C04", "C16", "C03", "C11", "C09", "C10", "C19", "C18"}, Floor: 14,
+	register(&Rule{ID: "T-LEX", Props: []string{"C04", "C16", "C03", "C11", "C09", "C10", "C19", "C18", "C08"}, Floor: 14,
 		Doc: "The lexical grammar, by path enumeration of the lexer's Next over a stream of symbolic runes (sub-scanners and helpers inlined, any source form): every token is produced for exactly its spelling (one-, two- and three-rune operators with their longest-match lookahead, numbers with optional minus, identifiers and the keywords in/let, $ and variables, and the three delimited literals whose body is any rune but the delimiter and the backslash, or a backslash followed by any rune); the token's text is exactly the runes consumed and the position moves to just after them; only white space is skipped before a token; every position is the start position plus the sizes of the runes before it (a constant step only over a rune the path has pinned to ASCII); every other rune is rejected.",
 		Run: ruleTLex})
 }
@@ -188,7 +188,9 @@ func ruleTLex(p *Program, r *Reporter) {
 		}
 		if lp.Err != "" {
 			// apart from decoding failures (end of input, invalid UTF-8) the only lexical error is an unexpected first rune
-			if lp.Err != "decode-err" {
+			// (a path that has bounded the length of the text from above has found its end)
+			_, nhi, _ := o.St.intRange(d.ncells)
+			if endKnown := nhi < 1<<30; lp.Err != "decode-err" && !lastDecodeFailed(o.St) && !endKnown {
 				examined := d.nRunes(o.St)
 				ws := 0
 				for i := 1; i <= examined; i++ {
@@ -206,6 +208,19 @@ func ruleTLex(p *Program, r *Reporter) {
 				}
 			}
 			continue
+		}
+		// the lexer's other fields (state the constructor initialises) are what the enumeration assumed them to be at
+		// entry; a token that is not the end token must leave them so, or the next call starts from a state not covered
+		if lp.Token != "End" {
+			for path, init := range d.stateInit {
+				if v, ok := o.St.load(avPtr{d.lobj, path}); ok && avKey(v) != avKey(init) {
+					k := "lexer state " + path + " after " + lp.Token
+					if !reported[k] {
+						reported[k] = true
+						r.Bad(lp.Pos, k, "the field is "+avKey(v)+" after the token is produced and "+avKey(init)+" after construction: the paths enumerated from the constructed state say nothing about the next call")
+					}
+				}
+			}
 		}
 		wsSeen[lp.WS] = true
 		var notes []string
@@ -273,6 +288,20 @@ func ruleTLex(p *Program, r *Reporter) {
 		if sv, ok := couts[0].Res[0].(avStruct); ok {
 			fields = sv.f
 		}
+		// nested struct values (an embedded cursor) count with their leaf fields
+		flat := map[string]AV{}
+		var flatten func(prefix string, m map[string]AV, depth int)
+		flatten = func(prefix string, m map[string]AV, depth int) {
+			for k, v := range m {
+				if sv, ok := v.(avStruct); ok && depth < 4 {
+					flatten(prefix+k+".", sv.f, depth+1)
+					continue
+				}
+				flat[prefix+k] = v
+			}
+		}
+		flatten("", fields, 0)
+		fields = flat
 		nText, bad := 0, ""
 		for fname, fv := range fields {
 			if avKey(fv) == avKey(text) {
@@ -298,4 +327,15 @@ func ruleTLex(p *Program, r *Reporter) {
 	} else {
 		r.Bad(fn.Pos(), "white space", "no path skips white space before a token")
 	}
+}
+
+// lastDecodeFailed: the last thing the rune decoder did on this path was to fail (end of the text, ill-formed sequence).
+func lastDecodeFailed(st *State) bool {
+	last := ""
+	for _, ev := range st.Trace {
+		if ev.Kind == "decode" || ev.Kind == "decode-err" {
+			last = ev.Kind
+		}
+	}
+	return last == "decode-err"
 }
